@@ -13,7 +13,7 @@ package zkprm
 //@ func (*Proof).Verify
 //@   use bits
 //@   nopanic[C05]
-//@   modifies hstate(hash)
+//@   modifies hstate(hash), wlog(hash.h)
 //@   requires pedok(public.Aux) && hash != nil && hash.h != nil
 
 //@ func challenge
